@@ -68,7 +68,13 @@ def run_case(case, ctx):
         return Outcome(discarded="compile-error")
     if base.get("outcome") == "budget":
         return Outcome(discarded="baseline-budget")
-    r = w.run(src, schedule=to_schedule(sched), force_full=force_full)
+    # collecting at every allocation is quadratic: long running programs get a sparser schedule instead
+    if base.get("gc", {}).get("allocations", 0) > 6000 and sched[0] == "every_alloc":
+        sched = ("every_kth", 97)
+    r = w.run(src, schedule=to_schedule(sched), force_full=force_full, watchdog_s=60)
+    if r.get("outcome") == "timeout":
+        # a wall clock stall is inconclusive, never a violation of this property
+        return Outcome(discarded="watchdog")
     gc = r.get("gc", {})
     nontrivial = gc.get("freeing_collections", 0) >= 1 and gc.get("last_freeing_ordinal", 0) < gc.get("allocations", 0)
     labels = [label, "build:" + variant, "sched:" + sched[0]]
